@@ -111,6 +111,7 @@ def clause_author_guard(prog, rep):
             n += 1
             cds = A.control_dependent_switches(g, bb)
             ok = False
+            passing = set()
             for w in cds:
                 l = A._opl(g.term(w)["discr"])
                 dep, calls, _ = g.depends_on(l)
@@ -119,6 +120,18 @@ def clause_author_guard(prog, rep):
                 param = any(1 <= x <= g.nargs for x in dep)
                 if cmpc and ident and param:
                     ok = True
+                    for sx in g.succs()[w]:
+                        if bb not in g.reachable_from(sx, frozenset([w])):
+                            passing.add((w, sx))
+            if ok and not g.is_closure() and g.path not in set(f_.path for f_, _, _ in sites):
+                # the guard function vouches for the author only if it cannot end well without the comparison having come out equal
+                # (a credential that cannot be read must refuse, not wave the message through)
+                r = A.reach_without_edges(g, 0, passing, A.err_exit_blocks(g))
+                rep.check(not any(g.term(b)["k"] == "return" for b in r), "author-bound", "AuthorMismatch/decides-every-ok",
+                          "every successful return of the author guard lies on the equal side of the comparison",
+                          "the author guard can return Ok without the rumor pubkey having been compared with the credential identity "
+                          "(e.g. when the sender's credential cannot be parsed): the message is then stored under whatever author the rumor names",
+                          g.loc())
             rep.check(ok, "author-bound", "AuthorMismatch/decision",
                       "AuthorMismatch is raised on an (in)equality of a parameter and the credential identity",
                       "the AuthorMismatch decision no longer compares the rumor pubkey with BasicCredential::identity()", g.loc())
